@@ -240,6 +240,7 @@ func specVersionVer(oldv, ver int32) int32 {
 //@   requires oldv > -2147483647 && oldv < 2147483647 && ver > -2147483648
 //@   ensures result1 == specVersionOk(oldv, ver)
 //@   ensures result1 ==> result0 == specVersionVer(oldv, ver)
+//@   ensures !result1 ==> result0 == 1      // (the caller stores the result in the payload before it looks at the flag: a rejected request still counts as a value to release)
 
 // ---------- C09: record layout ----------
 
